@@ -25,7 +25,7 @@ from frappy.errors import HardwareError, CommunicationFailedError
 class C05(Check):
     ID = 'C05'
     TRACE_FILES = ('modulebase.py', 'protocol/dispatcher.py', 'params.py')
-    TIERS = {'quick': {'runs': 4000, 'wall': 75}, 'thorough': {'runs': 400000, 'wall': 800}}
+    TIERS = {'quick': {'runs': 12000, 'wall': 75}, 'thorough': {'runs': 400000, 'wall': 800}}
     RULE = ('case = 1..2 generated modules (2..4 parameters over all datatypes, omit_unchanged_within in '
             '{0, default, 5 s}, update_unchanged in {default, always, never, number}) + 1..3 driver tasks with '
             'generated operation histories {read ok/raising/invalid, write, assign equal/different/invalid, '
